@@ -52,7 +52,7 @@ def run(ctx, only=None):
     # select! ties: a change and a request in the same instant (judged by the oracles alone; the built-in server answers)
     ties = L.gen_tie_cases(ctx.rng, 40 if ctx.tier == "quick" else 800) if only is None else []
     if ties:
-        outs = ctx.run_impl([c for c, _ in ties])
+        outs = ctx.run_impl([c for c, _ in ties], deterministic=False)
         for (c, info), raw in zip(ties, outs):
             for m in L.judge_tie(raw, c.split(" "), info)[:2]:
                 fails.append(Failure(c, "[select! tie] " + m + "\n  trace: " + raw[:1200], klass=None, extra={"tie": True}))
@@ -79,7 +79,7 @@ def replay(ctx, payload):
     if payload.get("extra", {}).get("tie"):
         # a select! tie: the outcome depends on tokio's random branch choice; run it several times
         for c in cases:
-            for k, raw in enumerate(ctx.run_impl([c] * 8)):
+            for k, raw in enumerate(ctx.run_impl([c] * 8, deterministic=False)):
                 print(f"run {k}:", raw[:1500])
         print("(tie schedules are judged by the oracles of tools/looplib.judge_tie; re-run ./check C05 for the verdict)")
         return 0
